@@ -1108,53 +1108,9 @@ static void run_analyzers(int codec, const uint64_t *xs, const uint32_t *x32, si
 }
 
 static long long clipf(long long v);
-/* ---------------------------------------------------------------- scenario */
-static void scenario(int codec, long param, size_t n, const char *shape,
-                     long sparam) {
-    uint64_t *xs = malloc((n + 1) * sizeof(*xs));
-    uint32_t *x32 = malloc((n + 1) * sizeof(*x32));
-    gen_shape(shape, n, sparam, xs);
-    adapted_n = n;
-    adapt(codec, param, n, xs);
-    n = adapted_n;
-    if (n == 0) {
-        free(xs);
-        free(x32);
-        return;
-    }
-    for (size_t i = 0; i < n; i++) {
-        x32[i] = (uint32_t)xs[i];
-    }
-    if (codec == C_DICT_WITH) {
-        g_dict = varintDictCreate();
-        if (!g_dict || varintDictBuild(g_dict, xs, n) != 0) {
-            fprintf(stderr, "dict build failed\n");
-            exit(2);
-        }
-    }
-    if (codec == C_ADAPTIVE && (what & 8) && n == 1 && (param == -1 || param == 5)) {
-        /* automatic selection documents the empty array (analysis of count 0 selects TAGGED,
-         * varintAdaptiveMaxSize(0) = 1, the header byte); the sub-encoders of the other forced
-         * encodings exclude it from their domain.  The metadata must describe what was written. */
-        gbuf e = gb_alloc(varintAdaptiveMaxSize(0));
-        varintAdaptiveMeta m;
-        memset(&m, 0x5A, sizeof(m));
-        size_t w = 0;
-        int f = param < 0 ? GUARDED(w = varintAdaptiveEncode(e.p, xs, 0, &m))
-                          : GUARDED(w = varintAdaptiveEncodeWith(e.p, xs, 0, (varintAdaptiveEncodingType)param, &m));
-        ev_begin("EncEmpty");
-        ev_int("sc", (long long)scen_id);
-        ev_str("codec", CODEC[codec]);
-        ev_int("param", param);
-        ev_int("fault", f);
-        ev_int("written", f ? -1 : (long long)w);
-        ev_int("msize", f ? -1 : clipf((long long)m.encodedSize));
-        ev_int("mcount", f ? -1 : clipf((long long)m.originalCount));
-        ev_int("mtype", f ? -1 : clipf((long long)m.encodingType));
-        ev_int("hdr0", f || w == 0 ? -1 : e.p[0]);
-        ev_end();
-        gb_free(&e);
-    }
+/* one encode of xs and everything the tier asks for about its output */
+static void scenario_body(int codec, long param, size_t n, const char *shape, long sparam, uint64_t *xs,
+                          uint32_t *x32) {
     int exact = 0;
     size_t bound = 0;
     int bf = GUARDED(bound = bound_of(codec, param, xs, x32, n, &exact));
@@ -1283,6 +1239,80 @@ static void scenario(int codec, long param, size_t n, const char *shape,
         gb_free(&src);
     }
     gb_free(&dst);
+}
+
+/* ---------------------------------------------------------------- scenario */
+static void scenario(int codec, long param, size_t n, const char *shape,
+                     long sparam) {
+    uint64_t *xs = malloc((n + 1) * sizeof(*xs));
+    uint32_t *x32 = malloc((n + 1) * sizeof(*x32));
+    gen_shape(shape, n, sparam, xs);
+    adapted_n = n;
+    adapt(codec, param, n, xs);
+    n = adapted_n;
+    if (n == 0) {
+        free(xs);
+        free(x32);
+        return;
+    }
+    for (size_t i = 0; i < n; i++) {
+        x32[i] = (uint32_t)xs[i];
+    }
+    if (codec == C_DICT_WITH) {
+        g_dict = varintDictCreate();
+        if (!g_dict || varintDictBuild(g_dict, xs, n) != 0) {
+            fprintf(stderr, "dict build failed\n");
+            exit(2);
+        }
+    }
+    if (codec == C_ADAPTIVE && (what & 8) && n == 1 && (param == -1 || param == 5)) {
+        /* automatic selection documents the empty array (analysis of count 0 selects TAGGED,
+         * varintAdaptiveMaxSize(0) = 1, the header byte); the sub-encoders of the other forced
+         * encodings exclude it from their domain.  The metadata must describe what was written. */
+        gbuf e = gb_alloc(varintAdaptiveMaxSize(0));
+        varintAdaptiveMeta m;
+        memset(&m, 0x5A, sizeof(m));
+        size_t w = 0;
+        int f = param < 0 ? GUARDED(w = varintAdaptiveEncode(e.p, xs, 0, &m))
+                          : GUARDED(w = varintAdaptiveEncodeWith(e.p, xs, 0, (varintAdaptiveEncodingType)param, &m));
+        ev_begin("EncEmpty");
+        ev_int("sc", (long long)scen_id);
+        ev_str("codec", CODEC[codec]);
+        ev_int("param", param);
+        ev_int("fault", f);
+        ev_int("written", f ? -1 : (long long)w);
+        ev_int("msize", f ? -1 : clipf((long long)m.encodedSize));
+        ev_int("mcount", f ? -1 : clipf((long long)m.originalCount));
+        ev_int("mtype", f ? -1 : clipf((long long)m.encodingType));
+        ev_int("hdr0", f || w == 0 ? -1 : e.p[0]);
+        ev_end();
+        gb_free(&e);
+    }
+    scenario_body(codec, param, n, shape, sparam, xs, x32);
+    if ((what & 1) && n >= 4 && n <= 300 && codec != C_DICT_WITH) {
+        /* The caller refills the SAME buffers and encodes again: same address,
+         * same count, same first and last element, other contents in between
+         * (two interior elements swapped, one interior element duplicated).
+         * The second encoding is a function of the new contents alone. */
+        unsigned keep = what;
+        uint64_t t = xs[1];
+        xs[1] = xs[n - 2];
+        xs[n - 2] = t;
+        xs[n / 2] = xs[n / 2 - 1];
+        adapted_n = n;
+        adapt(codec, param, n, xs);
+        if (adapted_n == n) {
+            for (size_t i = 0; i < n; i++) {
+                x32[i] = (uint32_t)xs[i];
+            }
+            int prime = g_prime_meta;
+            what = 1;
+            g_prime_meta = 0; /* the refilled buffer goes straight back to the same entry point */
+            scenario_body(codec, param, n, shape, sparam, xs, x32);
+            g_prime_meta = prime;
+            what = keep;
+        }
+    }
     if (codec == C_DICT_WITH) {
         varintDictFree(g_dict);
         g_dict = NULL;
